@@ -245,7 +245,23 @@ def _conc3(kp, pre, a1, b1, c1):
         return x if x else rt.ok()
 
 
-NSTEP = 70  # a solo run takes < 60 system calls (checked by the harness)
+NSTEP = 64  # a solo run takes < 64 system calls (checked by the harness)
+
+_SHARED = {}
+
+
+def shared_points(kp, pre, nproc=2):
+    """instants (number of system calls already made) at which the NEXT system call of a solo run of P0 touches the
+    shared trash directory: only there can a context switch change the outcome (operations on private paths commute)"""
+    key = (kp, pre, nproc)
+    if key not in _SHARED:
+        kinds = CONC_KINDS[kp] + (('file',) if nproc == 3 else ())
+        world, td = conc_world(kinds, pre, nproc)
+        m = W.build_model(world)
+        _, r = scen.run_model(None, [C('put', ['x'], scen.env(), cwd='/v/d0')], model=m)
+        pts = [i for i, op in enumerate(m.oplog) if any(isinstance(a, str) and ('/.Trash' in a) for a in op[1:])]
+        _SHARED[key] = pts + [len(m.oplog)]
+    return _SHARED[key]
 
 
 def w_conc2(kp: int, pre: int, a1: int, b1: int) -> str:
@@ -260,19 +276,36 @@ def w_conc2(kp: int, pre: int, a1: int, b1: int) -> str:
 def w_conc2x(kp: int, pre: int, a1: int, b1: int, a2: int) -> str:
     """
     pre: PARTITION is None or (kp == PARTITION[0] and pre == PARTITION[1])
-    pre: 0 <= kp < 5 and 0 <= pre < 4 and 0 <= a1 < 70 and 1 <= b1 < 70 and 1 <= a2 < 70
+    pre: 0 <= kp < 5 and 0 <= pre < 4 and 0 <= a1 < 40 and 0 <= b1 < 40 and 0 <= a2 < 40
     post: _ == ''
     """
-    return _conc2(rt.sel(kp, 5), rt.sel(pre, 4), rt.sel(a1, 70), rt.sel(b1, 70), rt.sel(a2, 70))
+    kp, pre = rt.sel(kp, 5), rt.sel(pre, 4)
+    a1, b1, a2 = rt.sel(a1, 40), rt.sel(b1, 40), rt.sel(a2, 40)
+    with rt.untraced():
+        pts = shared_points(kp, pre)
+        if a1 >= len(pts) or b1 >= len(pts) or a2 >= len(pts) or a2 <= a1:
+            rt.begin()
+            return rt.ok()
+        # P0 runs to its a1-th shared instant, P1 to its b1-th, P0 on to its a2-th, then both complete
+        segs = (pts[a1], max(1, pts[b1]), pts[a2] - pts[a1])
+    return _conc2(kp, pre, segs[0], segs[1], segs[2])
 
 
 def w_conc3(kp: int, pre: int, a1: int, b1: int, c1: int) -> str:
     """
     pre: PARTITION is None or (kp == PARTITION[0] and pre == PARTITION[1])
-    pre: 0 <= kp < 5 and 0 <= pre < 4 and 0 <= a1 < 70 and 0 <= b1 < 70 and 0 <= c1 < 70
+    pre: 0 <= kp < 5 and 0 <= pre < 4 and 0 <= a1 < 40 and 0 <= b1 < 40 and 0 <= c1 < 40
     post: _ == ''
     """
-    return _conc3(rt.sel(kp, 5), rt.sel(pre, 4), rt.sel(a1, 70), rt.sel(b1, 70), rt.sel(c1, 70))
+    kp, pre = rt.sel(kp, 5), rt.sel(pre, 4)
+    a1, b1, c1 = rt.sel(a1, 40), rt.sel(b1, 40), rt.sel(c1, 40)
+    with rt.untraced():
+        pts = shared_points(kp, pre, 3)
+        if a1 >= len(pts) or b1 >= len(pts) or c1 >= len(pts):
+            rt.begin()
+            return rt.ok()
+        segs = (pts[a1], pts[b1], pts[c1])
+    return _conc3(kp, pre, segs[0], segs[1], segs[2])
 
 
 def obligations(tier):
@@ -290,10 +323,12 @@ def obligations(tier):
            bounds='2 concurrent trash-put x (P0 runs a1 syscalls, P1 runs b1, then both complete), a1,b1 in 0..63 (a solo run is shorter: checked) x kind pairs x trash-dir pre-states (quick: 3 x 2, thorough: 5 x 4)'),
     ]
     if tier == 'thorough':
-        obs.append(CH('W_two_processes_3_preemptions', MOD, 'w_conc2x', timeout=14000, partitions=parts_t, twin=False, engine='W',
+        parts_x = [(k, p) for k in (0, 1) for p in (0, 1, 2)]
+        obs.append(CH('W_two_processes_3_preemptions', MOD, 'w_conc2x', timeout=14000, partitions=parts_x, twin=False, engine='W',
                       regime='selector', encodes=K.PUT_FUNCS + ['vf.sched replay-stepping'], stubs=K.STUBS,
-                      bounds='P0 a1, P1 b1, P0 a2, then completion: 70^3 schedules x 5 kind pairs x 4 pre-states'))
-        obs.append(CH('W_three_processes', MOD, 'w_conc3', timeout=14000, partitions=parts_t, twin=False, engine='W',
+                      bounds='P0 to its a1-th shared instant, P1 to its b1-th, P0 to its a2-th, then completion; switch points restricted to '
+                             'instants before a system call on a path under the trash directory (private operations commute); 2 kind pairs x 3 pre-states'))
+        obs.append(CH('W_three_processes', MOD, 'w_conc3', timeout=14000, partitions=parts_x, twin=False, engine='W',
                       regime='selector', encodes=K.PUT_FUNCS + ['vf.sched replay-stepping'], stubs=K.STUBS,
-                      bounds='3 concurrent trash-put: P0 a1, P1 b1, P2 c1, then completion in order: 70^3 schedules x 5 x 4'))
+                      bounds='3 concurrent trash-put: P0, P1, P2 each run to a chosen shared instant, then complete in order; same restriction; 2 x 3'))
     return obs
